@@ -87,6 +87,13 @@ def index {α : Type} (l : List α) (i : Int) : Except Err α :=
     | none => .error .indexError
   else .error .indexError
 
+/-- `l[i] = v` (Python's negative indices; IndexError outside) -/
+def listSet {α : Type} (l : List α) (i : Int) (v : α) : Except Err (List α) :=
+  if 0 ≤ i then
+    (if i.toNat < l.length then .ok (l.set i.toNat v) else .error .indexError)
+  else if -i ≤ (l.length : Int) then .ok (l.set (l.length - (-i).toNat) v)
+  else .error .indexError
+
 /-- `v = l.pop()`: the last element and the list without it; IndexError when empty -/
 def pop {α : Type} (l : List α) : Except Err (α × List α) :=
   match l.getLast? with
